@@ -258,6 +258,11 @@ fn generate(rng: &mut Rng, n: u64, tier: &str, emit: &mut dyn FnMut(Vec<String>)
         emit(vec![join(&[error(b"InvalidTextEncoding", Some(&vec![b'm'; len]))])]);
         emit(vec![join(&[error(&vec![b'c'; len], Some(b"m"))])]);
     }
+    // code AND message long at once: both header values at (and beyond) their 65 535-byte maximum - the header block is then
+    // as large as the format allows for an error frame (2 x 65535 + names and length fields); followed by further events
+    for (cl, ml) in [(65535usize, 65535usize), (65536, 65536), (70_000, 100_000), (65535, 65480), (65480, 65535), (40_000, 65535)] {
+        emit(vec![join(&[records(Some(b"x")), error(&vec![b'c'; cl], Some(&vec![b'm'; ml])), details('S', Some([Some(1), Some(1), Some(1)])), "E".to_owned()])]);
+    }
     // over-long text whose 65 535th byte falls at every offset inside a 2-, 3- and 4-byte UTF-8 sequence
     for (unit, width) in [("é", 2usize), ("中", 3), ("😀", 4)] {
         for pad in 0..width {
